@@ -47,7 +47,7 @@ class _GatedQueue:
     def _maybe_die(self):
         if self.die_after is not None and self.die_code < 0 and self.n == self.die_after:
             if self.die_lock:
-                self.q._wlock.acquire()  # what the feeder thread holds while it writes a message into the pipe
+                self.q._wlock.acquire(timeout=2)  # what the feeder thread holds while it writes a message into the pipe
             os.kill(os.getpid(), -self.die_code)
             time.sleep(60)
 
